@@ -38,7 +38,8 @@ type c08Case struct {
 func checkC08(c *Ctx) {
 	c.Rule("real MarchingSquaresUniform/Quadtree renders collected through a caller-owned Line2Buffer channel: all 16 configurations " +
 		"of one interior cell and all 2x64 patterns of two edge-adjacent cells x magnitude draws (uniform, zeros, sub-epsilon, equal, " +
-		"1e-6 vs 0.5), random dense fields, and circles / boxes / rounded boxes / unions at random resolutions and alignments. " +
+		"1e-6 vs 0.5), random dense fields, circles / boxes / rounded boxes / unions at random resolutions and alignments, and one disc on " +
+		"quadtree lattices of 33000..262200 squares a side (closed, on the circle, length = circumference). " +
 		"Non-trivial = render emitted >= 1 segment; distinct = (renderer, family, pattern, magnitude class) or (renderer, shape, cells).")
 	c.Assume("endpoints are welded at 1e-6 of the cell edge; boundary lattice nodes are outside; 'exactly degree 2' is demanded only for generic (non-degenerate) corner values, even degree always")
 	draws := c.Pick(64, 512)
@@ -312,6 +313,7 @@ func checkC08(c *Ctx) {
 		}
 	})
 	c08Reuse(c)
+	c08DeepQuad(c)
 	c.Floor(500)
 }
 
@@ -471,4 +473,57 @@ func judgeLines(c *Ctx, ls []*sdf.Line2, lat *lattice2, val func(i, j int) (floa
 		}
 	}
 	return rep
+}
+
+// c08DeepQuad: one disc on quadtree lattices of 33000 and more squares a side, where lattice coordinates pass 2^15, 2^16 and
+// 2^17 (a part drawn at plot resolution). Only squares next to the circle are visited, so the render is cheap; whatever the
+// renderer keys, packs or truncates by lattice coordinate shows here and nowhere below. Oracle: the segments form closed
+// curves, every endpoint is on the circle to within a cell, and the total length is the circumference (one loop, no more).
+func c08DeepQuad(c *Ctx) {
+	cells := []int{33000, 40000, 66000}
+	if !c.Quick {
+		cells = append(cells, 20000, 50000, 131100, 200000, 262200)
+	}
+	parallelFor(len(cells), func(i int) {
+		n := cells[i]
+		r := c.Rng("deepquad", i)
+		bb := sdf.Box2{Min: v2.Vec{X: -1.3, Y: -1.3}, Max: v2.Vec{X: 1.3, Y: 1.3}}
+		ctr := v2.Vec{X: r.R(-0.2, 0.2), Y: r.R(-0.2, 0.2)}
+		rad := r.R(0.8, 1.05)
+		ls := collectLines(render.NewMarchingSquaresQuadtree(n), &fieldSDF2{bb: bb, fn: func(p v2.Vec) float64 { return math.Hypot(p.X-ctr.X, p.Y-ctr.Y) - rad }})
+		c.Eval(1)
+		cell := 2.6 / float64(n)
+		cs := c08Case{Renderer: "quadtree", Family: "deep-lattice-disc", Cells: n, Shape: fmt.Sprintf("disc r=%.6g at %v in [-1.3,1.3]^2", rad, ctr)}
+		tag := fmt.Sprintf("quadtree deep-lattice-disc cells=%d %s", n, cs.Shape)
+		rep := checkClosed2(ls, 1e-6*cell)
+		c.Count("segments_checked", int64(rep.Segments))
+		if rep.NaN > 0 || rep.Segments == 0 {
+			c.Violate("", fmt.Sprintf("ms-nan %s: %d segments, %d with NaN/Inf coordinates", tag, rep.Segments, rep.NaN), cs)
+			return
+		}
+		if rep.OddDegree > 0 {
+			c.Violate("", fmt.Sprintf("ms-open %s: %d endpoints of odd degree (first %v) in %d segments", tag, rep.OddDegree, rep.FirstOdd, rep.Segments), cs)
+			return
+		}
+		worst, length := 0.0, 0.0
+		var at v2.Vec
+		for _, l := range ls {
+			for k := 0; k < 2; k++ {
+				if d := math.Abs(math.Hypot(l[k].X-ctr.X, l[k].Y-ctr.Y) - rad); d > worst {
+					worst, at = d, l[k]
+				}
+			}
+			length += math.Hypot(l[1].X-l[0].X, l[1].Y-l[0].Y)
+		}
+		if worst > cell {
+			c.Violate("", fmt.Sprintf("ms-off-boundary %s: endpoint %v is %.3g from the circle, the cell edge is %.3g", tag, at, worst, cell), cs)
+			return
+		}
+		if want := 2 * math.Pi * rad; math.Abs(length-want) > 1e-4*want {
+			c.Violate("", fmt.Sprintf("ms-incomplete %s: total length %.9g, circumference %.9g", tag, length, want), cs)
+			return
+		}
+		c.MaxObs("deep_quadtree_worst_endpoint_distance_over_cell", worst/cell)
+		c.Distinct(fmt.Sprintf("quadtree/deep-lattice-disc/%d", n))
+	})
 }
